@@ -14,7 +14,9 @@ Rot24 == { r \in [p : Perms3, s : [1..3 -> {-1, 1}]] :
              Det3m([i \in 1..3 |-> [j \in 1..3 |-> IF r.p[i] = j THEN r.s[i] ELSE 0]]) = 1 }
 ApplyR(r, v) == <<r.s[1] * v[r.p[1]], r.s[2] * v[r.p[2]], r.s[3] * v[r.p[3]]>>
 Cells == { << <<9,0,0>>, <<0,10,0>>, <<0,0,11>> >>, << <<10,0,0>>, <<-3,10,0>>, <<-3,-4,9>> >> }
-Starts == { << <<0,0,0>>, <<2,1,0>>, <<1,3,1>>, <<-1,1,2>> >>, << <<0,0,0>>, <<3,0,0>>, <<0,3,0>>, <<1,1,3>> >>, << <<1,1,1>>, <<-2,0,1>>, <<0,-2,-1>>, <<2,2,0>> >> }
+Starts == { << <<0,0,0>>, <<2,1,0>>, <<1,3,1>>, <<-1,1,2>> >>, << <<0,0,0>>, <<3,0,0>>, <<0,3,0>>, <<1,1,3>> >>, << <<1,1,1>>, <<-2,0,1>>, <<0,-2,-1>>, <<2,2,0>> >>,
+            \* degenerate shapes: exactly planar (all z equal) and exactly linear along a coordinate axis -- a bounding box of zero thickness
+            << <<0,0,0>>, <<2,1,0>>, <<1,3,0>>, <<-1,1,0>> >>, << <<0,0,0>>, <<1,0,0>>, <<3,0,0>>, <<4,0,0>> >> }
 VARIABLES pos, cell, ph, last
 vars == <<pos, cell, ph, last>>
 Init == pos = <<>> /\ cell = << <<1,0,0>>, <<0,1,0>>, <<0,0,1>> >> /\ ph = 0 /\ last = [op |-> "init", a |-> 0, v |-> <<0,0,0>>, r |-> <<1,2,3,1,1,1>>]
@@ -55,5 +57,8 @@ Invariant == [][ph >= 1 => Obs(pos', cell') = Obs(pos, cell)]_vars
 View == <<pos, cell, ph>>
 \* exploration bound: configurations whose coordinates stay small (rotations and translations compose freely)
 Depth == \A i \in 1..Len(pos) : \A k \in 1..3 : pos[i][k] \in -60..60
-Emit == ph >= 1 => PrintT(<<"TR", ToJson([step |-> last', start |-> pos, cell |-> cell])>>)
+\* the neighbour relation of the start configuration is emitted as well: the implementation's lists must BE it, not merely stay the same
+Emit == ph >= 1 => PrintT(<<"TR", ToJson([step |-> last', start |-> pos, cell |-> cell,
+                                          nbr |-> [i \in 1..NAt |-> [j \in 1..NAt |-> j # i /\ 4 * D2(i, j, pos, cell) < 49]],
+                                          tordef |-> Obs(pos, cell).tor[4] # 0])>>)       \* FALSE: three collinear atoms, the torsion is undefined
 =======================================================================
